@@ -9,7 +9,7 @@ From Coq Require Import List NArith Arith Bool Lia.
 From GmsmVerif Require Import Lib.Outcome HS.HSTerms HS.HSModel HS.HSParsers HS.HSParserProofs HS.HSProofs
      HS.HSClientFlight HS.HSTlsClientFlight HS.HSServerFlight HS.HSRecords HS.HSTablesTie Gen.HSTables
      HS.HSMsgParsers HS.HSMsgParserProofs HS.HSFlightTie HS.HSMsgMarshal HS.HSMsgMarshalProofs
-     Gen.HSSigTables HS.HSSigAlg HS.HSSigAlgProofs HS.HSKxParsers HS.HSKxParserProofs.
+     Gen.HSSigTables HS.HSSigAlg HS.HSSigAlgProofs HS.HSKxParsers HS.HSKxParserProofs HS.HSCompression.
 Import ListNotations.
 Local Open Scope N_scope.
 
@@ -449,6 +449,18 @@ Proof.
   pose proof (clientauth_tests_match_source a) as H. tauto.
 Qed.
 Print Assumptions C15_alert_and_clientauth_numbers_match_source.
+
+(* The compression methods of the ClientHello: the message-level models carry the bit "compressionNone is offered"; it
+   stands for the search (HSCompression.comp_offers_null) that all four server hello functions do over the list - the
+   translator records that shape, gen_null_compression_searched, and refuses any other use of the list - so a ClientHello
+   is acceptable iff its list CONTAINS 0, whatever else it offers; and no server model answers one that does not. *)
+Theorem C15_null_compression_is_searched : forall cfg st ch,
+  (gen_null_compression_searched = [1; 1; 1; 1] /\ (forall l, comp_offers_null l = true <-> In compressionNone l)) /\
+  (ss_phase st = SP_Hello -> ch_comp_null ch = false -> snd (server_handshake_step cfg st (MClientHello ch)) = SError).
+Proof.
+  intros cfg st ch. split; [split; [reflexivity|exact comp_offers_null_iff]|apply server_requires_null_compression].
+Qed.
+Print Assumptions C15_null_compression_is_searched.
 
 (* ---- non-vacuity --------------------------------------------------------------------------------------- *)
 Definition ex_sig := TCert 1 KIND_SM2 KU_SIGN 101.
